@@ -77,6 +77,9 @@ class Child:
         self.peer = None
         self.pdb_written = None
         self.system_at_write = None
+        self.depth = {}
+        from . import ssoracle
+        self.ss = ssoracle.Oracle(self)
 
     def fail(self, prop, invariant, expected=None, actual=None, signature=None, detail=None):
         self.failed.append({'property': prop, 'invariant': invariant, 'expected': expected, 'actual': actual,
@@ -153,9 +156,13 @@ class Child:
             else:
                 def wrapper(self_, system):
                     name = type(self_).__name__
-                    child.stage_begin(name, system)
-                    out = real(self_, system)
-                    child.stage_end(name, out if out is not None else system)
+                    child.stage_begin(name, system, self_)
+                    try:
+                        out = real(self_, system)
+                    except Exception as err:
+                        child.stage_raised(name, system, self_, err)
+                        raise
+                    child.stage_end(name, out if out is not None else system, self_)
                     return out
                 cls.run_system = wrapper
 
@@ -280,10 +287,29 @@ class Child:
         sys.stderr = self.devnull
 
     # ------------------------------------------------------------------ observation
-    def stage_begin(self, name, system):
-        pass
+    SS_HOOKS = {'AnnotateResidues': 'annotate_residues', 'AnnotateDSSP': 'annotate_dssp',
+                'AnnotateMartiniSecondaryStructures': 'martini'}
 
-    def stage_end(self, name, system):
+    def stage_begin(self, name, system, proc=None):
+        # a processor's run_system may call the base class' run_system: only the outermost call is a stage
+        self.depth[name] = self.depth.get(name, 0) + 1
+        hook = self.SS_HOOKS.get(name)
+        if hook and proc is not None and self.depth[name] == 1:
+            getattr(self.ss, 'begin_' + hook)(proc, system)
+
+    def stage_raised(self, name, system, proc, err):
+        self.depth[name] -= 1
+        hook = self.SS_HOOKS.get(name)
+        if hook and proc is not None and self.depth[name] == 0:
+            getattr(self.ss, 'end_' + hook)(proc, system, err)
+
+    def stage_end(self, name, system, proc=None):
+        self.depth[name] -= 1
+        if self.depth[name] > 0:
+            return
+        hook = self.SS_HOOKS.get(name)
+        if hook and proc is not None:
+            getattr(self.ss, 'end_' + hook)(proc, system, None)
         self.stages.append([name, system_digest(system)])
         self.check_i1('after stage %s' % name)
         # inject log records at this stage boundary (S7, fault kind 'warn')
